@@ -34,6 +34,13 @@ def run_case(run, drv, files, pl, single, tag, kinds=KINDS):
         root, name = cr.materialize(box, files, single)
         for kind in kinds:
             out = os.path.join(box, kind + ".torrent")
+            if not single and run.rng.random() < 0.2:
+                # the output file (written elsewhere) is named like an entry of the payload
+                rel0 = files[run.rng.randrange(len(files))][0].split("/")
+                os.makedirs(os.path.join(box, "outdir"), exist_ok=True)
+                out = os.path.join(box, "outdir", run.rng.choice([rel0[-1], rel0[0]]))
+                if os.path.isdir(out):
+                    out = os.path.join(box, kind + ".torrent")
             try:
                 spelled, prog = cr.variant(run.rng, root, single)
                 raw = impl.create(kind, spelled, out, piece_length=pl, progress=prog)
@@ -116,12 +123,18 @@ def scaled_sweep(run, drv, tier):
 def big_piece(run):
     """Explicit piece length 2^25 and a file of more than one such piece."""
     from harness.common import Blob
-    pl = 2 ** 25
+    # (piece length, size): a 2^25 piece with more than one piece; a file of 2^26 bytes and more that
+    # is not a whole number of blocks; more than 2048 pieces (so more than 1024 balancing roots)
+    for pl, n in ((2 ** 25, 40 * 2 ** 20 + 77), (2 ** 20, 2 ** 26 + 777), (16384, 2050 * 16384 - 5)):
+        _big(run, pl, n)
+
+
+def _big(run, pl, n):
+    from harness.common import Blob
     with sandbox("c02b") as box:
         root = os.path.join(box, "payload")
         os.makedirs(root)
         pat = Blob.rand(11, 1021).bytes()
-        n = 40 * 2 ** 20 + 77
         data = (pat * (n // 1021 + 1))[:n]
         with open(os.path.join(root, "big.bin"), "wb") as fd:
             fd.write(data)
